@@ -234,7 +234,7 @@ def run_histories_stacked(ctx, rng, N, maxlen):
 
     for i in range(N):
         kind = ["two-dims", "multiindex"][i % 2]
-        name = ["EOF", "ComplexEOF", "MCA"][(i // 2) % 3]
+        name = ["EOF", "MCA", "ComplexEOF", "MCA"][(i // 2) % 4]
         cross = name == "MCA"
         dim = ("year", "month") if kind == "two-dims" else "time"
         p = int(rng.integers(3, 5))
@@ -254,7 +254,18 @@ def run_histories_stacked(ctx, rng, N, maxlen):
                     last = j
                     fits += 1
                 elif op == "transform":
-                    m.transform(pool[j], pool[j] * 0.5 + 1.0) if cross else m.transform(pool[j])
+                    if cross:
+                        # both fields, or one field alone (every third / fourth transform)
+                        way = ["both", "both", "X-alone", "Y-alone"][int(rng.integers(0, 4))]
+                        hist[-1] = (op + ":" + way, j)
+                        if way == "both":
+                            m.transform(pool[j], pool[j] * 0.5 + 1.0)
+                        elif way == "X-alone":
+                            m.transform(X=pool[j])
+                        else:
+                            m.transform(Y=pool[j] * 0.5 + 1.0)
+                    else:
+                        m.transform(pool[j])
                 elif op == "scores":
                     m.scores()
                 else:
@@ -278,6 +289,22 @@ def run_histories_stacked(ctx, rng, N, maxlen):
         else:
             fresh.fit(probe, dim)
             a, b = answers(m, "single", probe), answers(fresh, "single", probe)
+        if cross and equal(a, b) and labels_equal(m, fresh, cross):
+            # one field alone, on data the model has not seen: values AND labels of the answer, used model against fresh model
+            # (the fresh model has transformed nothing but its training data)
+            unseen = mk(kind, [2100, 2101, 2102, 2103], p) * 0.5 + 1.0
+            try:
+                ta, tb = m.transform(Y=unseen), fresh.transform(Y=unseen)
+                lab = lambda x: {d: [tuple(e) if isinstance(e, tuple) else e for e in x.indexes[d].tolist()] for d in x.dims if d in x.indexes}   # noqa
+                if lab(ta) != lab(tb) or not equal({"t": canon(ta)}, {"t": canon(tb)}):
+                    ctx.violation("C14:%s:%s:queries:transform-of-the-second-field-alone" % (name, kind),
+                                  "%s (%s): after history %r the transform of the second field alone (unseen data) differs from a fresh model's: labels %r vs %r" % (
+                                      name, kind, hist, str(lab(ta))[:80], str(lab(tb))[:80]),
+                                  dict(kind="history-stacked", cls=name, structure=kind, history=hist, differs="transform(Y=unseen)"))
+            except Exception as e:
+                ctx.violation("C14:%s:%s:queries:transform-of-the-second-field-alone:error:%s" % (name, kind, C.errkind(e)),
+                              "%s (%s): after history %r the transform of the second field alone raised %r" % (name, kind, hist, e),
+                              dict(kind="history-stacked", cls=name, structure=kind, history=hist))
         if not equal(a, b) or not labels_equal(m, fresh, cross):
             which = first_diff(b, a) if not equal(a, b) else "labels"
             ctx.violation("C14:%s:%s:%s:%s" % (name, kind, "refit" if fits >= 2 else "queries", which),
@@ -389,7 +416,7 @@ def run(ctx):
     C.setup_impl_env(prior_use=0)
     rng = ctx.rng.child("c14").np
     run_histories(ctx, rng, ctx.n(45, 900), ctx.n(8, 40))
-    run_histories_stacked(ctx, rng, ctx.n(18, 300), ctx.n(7, 20))
+    run_histories_stacked(ctx, rng, ctx.n(24, 300), ctx.n(7, 20))
     run_rotator_leaves_model(ctx, rng, ctx.n(10, 100))
     run_rotator_histories(ctx, rng, ctx.n(12, 200))
     from harness import mic
